@@ -246,7 +246,7 @@ fn corr_field<B: RF>(r: &mut Rng, maxlog: u32, thorough: bool, o: &mut Out) {
             let big = n >= 1024;
             let lvl = if big { if b <= 2 { 1 } else { 2 } } else if n * b <= 64 { 0 } else if n * b <= 512 { 1 } else { 2 };
             for (i, (_, v)) in kinds(r, p, n, lvl).into_iter().enumerate() {
-                if !thorough && n * b >= 4096 && i == 0 { continue; }
+                if lvl == 2 && n * b >= 4096 && i == 0 { continue; }
                 let off = if big { offs[1 + i % 2] } else { offs[(i + b.trailing_zeros() as usize) % 4] };
                 o.line("eval_off", format!("{} std {:x} {} {}", f, off, b, hu(&v)), do_eval_off::<B>(&v, &tw, off, b));
             }
@@ -513,7 +513,7 @@ impl<B: RF + ExtensibleField<3>> Elem<B> for CubeExtension<B> {
     fn v_show(v: Self) -> String { let b = v.to_base_elements(); format!("{:x}:{:x}:{:x}", b[0].tu(), b[1].tu(), b[2].tu()) }
 }
 
-struct Ctx { evals: u64, fails: u64, printed: u64, prog: Progress, quick: bool, seed: u64, roots_ok: BTreeSet<(&'static str, u32)> }
+struct Ctx { evals: u64, fails: u64, printed: u64, prog: Progress, quick: bool, seed: u64, roots_ok: BTreeSet<(&'static str, u32)>, selftest: bool }
 impl Ctx {
     fn fail(&mut self, what: &str, input: String, expected: String, actual: String) {
         self.fails += 1;
@@ -560,7 +560,7 @@ fn rand_poly<B: RF, E: Elem<B>>(r: &mut Rng, n: usize) -> Vec<E::V> { let v = ra
 
 /// number of output points at which a length-`n` polynomial is compared against Horner
 fn npts<B: RF, E: Elem<B>>(n: usize) -> usize {
-    if B::SLOW && E::EXTENSION_DEGREE == 1 { (4096 / n).clamp(4, 64).min(n) } else if n <= 256 { n } else { 64 }
+    if B::SLOW && E::EXTENSION_DEGREE == 1 { (8192 / n).clamp(6, 64).min(n) } else if n <= 512 { n } else { 64 }
 }
 fn sample(r: &mut Rng, n: usize, k: usize) -> Vec<usize> {
     if k >= n { return (0..n).collect(); }
@@ -577,7 +577,9 @@ fn check_points<B: RF, E: Elem<B>>(ctx: &mut Ctx, what: &str, desc: &str, actual
             ctx.fail(what, format!("{} first_bad_index={}", desc, i), format!("length > {}", i), format!("length {}", actual.len()));
             return;
         }
-        let want = expected(i);
+        let mut want = expected(i);
+        // C09_SELFTEST=1: corrupt the oracle on a few vectors to show that mismatches are detected and reported
+        if ctx.selftest && ctx.evals % 1009 == 0 && i == *idxs.last().unwrap() { want = E::v_add(want, E::v_parts(&[1, 0, 0])); }
         let got = E::e_to_v(actual[i]);
         if got != want {
             ctx.fail(what, format!("{} first_bad_index={}", desc, i), E::v_show(want), E::v_show(got));
@@ -761,9 +763,313 @@ fn check_interp<B: RF, E: Elem<B>>(ctx: &mut Ctx, r: &mut Rng, maxlog: u32) {
     }
 }
 
-// FALSIFY-PART-B
+// (d) infer_degree
+fn check_degree<B: RF, E: Elem<B>>(ctx: &mut Ctx, r: &mut Rng, maxlog: u32) {
+    let p = B::P;
+    let fname = E::name();
+    let slow = B::SLOW && E::EXTENSION_DEGREE == 1;
+    for k in 1..=maxlog.min(9) {
+        let n = 1usize << k;
+        ctx.prog.step(|| format!("{} infer_degree n={}", fname, n));
+        let g = ctx.root::<B>(k);
+        let offs = offsets::<B>(r);
+        let mut ds: Vec<usize> = vec![0, 1, 2, (n / 2).saturating_sub(1), n / 2, n.saturating_sub(2), n - 1, r.below(n as u64) as usize, r.below(n as u64) as usize];
+        ds.retain(|&d| d < n);
+        ds.sort();
+        ds.dedup();
+        for (di, &d) in ds.iter().enumerate() {
+            for oi in 0..3usize {
+                if n > 64 && (di + oi) % 3 != 0 { continue; }
+                let off = offs[oi];
+                // exact degree d; sparse polynomials where the reference arithmetic is slow
+                let mut poly: Vec<E::V> = vec![zero_v::<B, E>(); d + 1];
+                let sparse = slow && n > 64;
+                if sparse { for _ in 0..3 { let j = r.below(d as u64 + 1) as usize; poly[j] = rand_poly::<B, E>(r, 1)[0]; } } else { poly = rand_poly::<B, E>(r, d + 1); }
+                let mut lead = [rand_nz(r, p), 0, 0];
+                if E::EXTENSION_DEGREE > 1 && r.chance(1, 2) { lead = [0, rand_nz(r, p), rand_elem(r, p)]; }
+                poly[d] = E::v_parts(&lead);
+                let evals: Vec<E::V> = if sparse {
+                    // sum of c_j * off^j * (g^j)^i over the non-zero terms, by running products
+                    let mut acc = vec![zero_v::<B, E>(); n];
+                    for (j, c) in poly.iter().enumerate() {
+                        if *c == zero_v::<B, E>() { continue; }
+                        let gj = powmod(g, j as u128, p);
+                        let mut x = powmod(off, j as u128, p);
+                        for a in acc.iter_mut() { *a = E::v_add(*a, E::v_mul_base(*c, x)); x = mulmod(x, gj, p); }
+                    }
+                    acc
+                } else { oracle_evals::<B, E>(&poly, g, k, off) };
+                let ev: Vec<E> = to_e::<B, E>(&evals);
+                let desc = format!("{} infer_degree n={} off={:x} degree={} poly=random#{}", fname, n, off, d, di * 3 + oi);
+                ctx.evals += 1;
+                match catch(AssertUnwindSafe(|| fft::infer_degree(&ev, B::fu(off)))) {
+                    Err(m) => ctx.fail("infer_degree panics", desc, d.to_string(), format!("panic: {}", m)),
+                    Ok(got) => if got != d { ctx.fail("infer_degree != degree of the evaluated polynomial", desc, d.to_string(), got.to_string()); },
+                }
+            }
+        }
+        let ev: Vec<E> = vec![E::ZERO; n];
+        ctx.evals += 1;
+        match catch(AssertUnwindSafe(|| fft::infer_degree(&ev, B::fu(offs[1])))) {
+            Err(m) => ctx.fail("infer_degree panics", format!("{} infer_degree n={} zero polynomial", fname, n), "0".into(), format!("panic: {}", m)),
+            Ok(got) => if got != 0 { ctx.fail("infer_degree(zero polynomial) != 0", format!("{} infer_degree n={} zero polynomial", fname, n), "0".into(), got.to_string()); },
+        }
+    }
+}
+
+// (e) twiddles and permutations
+fn check_twiddles<B: RF>(ctx: &mut Ctx, maxlog: u32) {
+    let p = B::P;
+    for k in 1..=maxlog + 1 {
+        let n = 1usize << k;
+        ctx.prog.step(|| format!("{} twiddles n={}", B::NAME, n));
+        let g = ctx.root::<B>(k);
+        let ginv = invmod(g, p);
+        if mulmod(g, ginv, p) != 1 { ctx.fail("oracle self-check: g * g^-1", format!("{} k={}", B::NAME, k), "1".into(), "other".into()); }
+        for (inv, base) in [(false, g), (true, ginv)] {
+            let mut pw = Vec::with_capacity(n / 2);
+            let mut x = 1u128;
+            for _ in 0..n / 2 { pw.push(x); x = mulmod(x, base, p); }
+            let what = if inv { "get_inv_twiddles" } else { "get_twiddles" };
+            let desc = format!("{} {} n={}", B::NAME, what, n);
+            match catch(move || if inv { fft::get_inv_twiddles::<B>(n) } else { fft::get_twiddles::<B>(n) }) {
+                Err(m) => panicked(ctx, what, &desc, &m),
+                Ok(tw) => {
+                    if tw.len() != n / 2 { ctx.evals += 1; ctx.fail("twiddles: wrong length", desc, (n / 2).to_string(), tw.len().to_string()); continue; }
+                    let all: Vec<usize> = (0..n / 2).collect();
+                    check_points::<B, B>(ctx, "twiddles[i] != g^bitrev(i)", &desc, &tw, &all, &mut |i| pw[bitrev(i as u64, k - 1) as usize]);
+                }
+            }
+        }
+    }
+}
+
+fn check_permute_index(ctx: &mut Ctx, r: &mut Rng) {
+    let mut ks: Vec<u32> = (0..=20).collect();
+    ks.extend([24u32, 31, 32, 33, 40, 48, 62, 63]);
+    for k in ks {
+        ctx.prog.step(|| format!("permute_index size=2^{}", k));
+        let size = 1usize << k;
+        let idxs: Vec<usize> = if k <= 12 { (0..size).collect() } else {
+            let mut v = vec![0usize, 1, 2, size / 2 - 1, size / 2, size - 2, size - 1];
+            for _ in 0..64 { v.push(r.below(size as u64) as usize); }
+            v
+        };
+        ctx.evals += 1;
+        for i in idxs {
+            let want = bitrev(i as u64, k) as usize;
+            match catch(move || (fft::permute_index(size, i), fft::permute_index(size, want))) {
+                Err(m) => { ctx.fail("permute_index panics", format!("size={} index={}", size, i), want.to_string(), format!("panic: {}", m)); break; }
+                Ok((got, back)) => {
+                    if got != want { ctx.fail("permute_index != bit reversal", format!("size={} index={}", size, i), want.to_string(), got.to_string()); break; }
+                    if back != i { ctx.fail("permute_index is not an involution", format!("size={} index={}", size, want), i.to_string(), back.to_string()); break; }
+                }
+            }
+        }
+    }
+}
+
+fn check_permute<B: RF, E: Elem<B>>(ctx: &mut Ctx, r: &mut Rng, maxlog: u32) {
+    let fname = E::name();
+    for k in 0..=maxlog {
+        let n = 1usize << k;
+        ctx.prog.step(|| format!("{} permute n={}", fname, n));
+        for vi in 0..2 {
+            let vals: Vec<E::V> = if vi == 0 { (0..n).map(|i| E::v_parts(&[i as u128, 0, 0])).collect() } else { rand_poly::<B, E>(r, n) };
+            let mut v: Vec<E> = to_e::<B, E>(&vals);
+            let desc = format!("{} permute n={} vec={}#{}", fname, n, if vi == 0 { "iota" } else { "random" }, vi);
+            match catch(AssertUnwindSafe(|| { FftInputs::permute(&mut v[..]); v })) {
+                Err(m) => panicked(ctx, "permute panics", &desc, &m),
+                Ok(res) => {
+                    let all: Vec<usize> = (0..n).collect();
+                    check_points::<B, E>(ctx, "permute(v)[i] != v[bitrev(i)]", &desc, &res, &all, &mut |i| vals[bitrev(i as u64, k) as usize]);
+                }
+            }
+        }
+    }
+}
+
+// (f) fft_in_place_raw
+fn check_fft_raw<B: RF, E: Elem<B>>(ctx: &mut Ctx, r: &mut Rng, maxlog: u32) {
+    let p = B::P;
+    let fname = E::name();
+    let cap = 1usize << maxlog;
+    let mut cases: Vec<(usize, usize, usize, usize)> = Vec::new(); // (size, count, stride, offset)
+    for stride in [1usize, 2, 3, 8, 256, 512] {
+        let mut size = 2usize;
+        while size * stride <= cap {
+            let big = size * stride > 1024;
+            cases.push((size, stride, stride, 0));
+            if stride > 1 && !(big && ctx.quick) {
+                cases.push((size, 1, stride, r.below(stride as u64) as usize));
+                let o = r.below(stride as u64) as usize;
+                cases.push((size, 1 + r.below((stride - o) as u64) as usize, stride, o));
+                cases.push((size, 1, stride, stride - 1));
+                cases.push((size, stride - 1, stride, 1));
+            }
+            size *= 2;
+        }
+    }
+    for (size, count, stride, offset) in cases {
+        let len = size * stride;
+        let ks = size.trailing_zeros();
+        ctx.prog.step(|| format!("{} fft_in_place_raw size={} count={} stride={} offset={}", fname, size, count, stride, offset));
+        let g = ctx.root::<B>(ks);
+        let tw = fft::get_twiddles::<B>(size);
+        let orig = rand_poly::<B, E>(r, len);
+        let mut v: Vec<E> = to_e::<B, E>(&orig);
+        let desc = format!("{} fft_in_place_raw size={} count={} stride={} offset={} vec=random", fname, size, count, stride, offset);
+        let res = match catch(AssertUnwindSafe(|| { FftInputs::fft_in_place_raw(&mut v[..], &tw, count, stride, offset); v })) {
+            Err(m) => { panicked(ctx, "fft_in_place_raw panics", &desc, &m); continue; }
+            Ok(res) => res,
+        };
+        // positions outside the selected residues are untouched
+        let untouched: Vec<usize> = (0..len).filter(|i| { let m = i % stride; m < offset || m >= offset + count }).collect();
+        check_points::<B, E>(ctx, "fft_in_place_raw modifies a position outside [offset, offset+count) mod stride", &desc, &res, &untouched, &mut |i| orig[i]);
+        // each selected subsequence is the bit-reversed DFT of the original subsequence
+        let budget = if B::SLOW && E::EXTENSION_DEGREE == 1 { 1usize << 14 } else { 1usize << 19 };
+        let per_sub = (budget / count / size).clamp(2, size);
+        for j in offset..offset + count {
+            let sub: Vec<E::V> = (0..size).map(|i| orig[j + i * stride]).collect();
+            let got: Vec<E> = (0..size).map(|i| res[j + i * stride]).collect();
+            let idxs = sample(r, size, per_sub);
+            check_points::<B, E>(ctx, "fft_in_place_raw subsequence != bit-reversed DFT", &format!("{} subsequence={}", desc, j), &got, &idxs,
+                &mut |i| horner::<B, E>(&sub, powmod(g, bitrev(i as u64, ks) as u128, p)));
+        }
+    }
+}
+
+// (g) batched evaluation over matrices
+fn rowmat_go<B: RF, E: Elem<B>, const N: usize>(polys: &ColMatrix<E>, dom: Option<&StarkDomain<B>>, blowup: usize) -> RowMatrix<E> {
+    match dom { Some(d) => RowMatrix::<E>::evaluate_polys_over::<N>(polys, d), None => RowMatrix::<E>::evaluate_polys::<N>(polys, blowup) }
+}
+fn rowmat_any<B: RF, E: Elem<B>>(nb: usize, polys: &ColMatrix<E>, dom: Option<&StarkDomain<B>>, blowup: usize) -> RowMatrix<E> {
+    match nb {
+        1 => rowmat_go::<B, E, 1>(polys, dom, blowup),
+        2 => rowmat_go::<B, E, 2>(polys, dom, blowup),
+        3 => rowmat_go::<B, E, 3>(polys, dom, blowup),
+        4 => rowmat_go::<B, E, 4>(polys, dom, blowup),
+        _ => rowmat_go::<B, E, 8>(polys, dom, blowup),
+    }
+}
+
+fn check_matrices<B: RF, E: Elem<B>>(ctx: &mut Ctx, r: &mut Rng, _maxlog: u32) {
+    let p = B::P;
+    let fname = E::name();
+    let slow = B::SLOW && E::EXTENSION_DEGREE == 1;
+    let rows_set = [2usize, 4, 8, 16, 64];
+    let blow_set = [2usize, 4, 8, 16];
+    let gen_cols = |r: &mut Rng, ncols: usize, nrows: usize| -> Vec<Vec<E::V>> {
+        (0..ncols).map(|c| if c % 5 == 3 { let b = boundary_vec(r, p, nrows); lift::<B, E>(r, "boundary", &b) } else { rand_poly::<B, E>(r, nrows) }).collect()
+    };
+    // ColMatrix::evaluate_columns_over / interpolate_columns
+    for &nrows in &rows_set {
+        for &blowup in &[1usize, 2, 4, 8, 16] {
+            if slow && nrows * blowup > 256 { continue; }
+            let ncols = 1 + r.below(4) as usize;
+            let k = nrows.trailing_zeros() + blowup.trailing_zeros();
+            ctx.prog.step(|| format!("{} ColMatrix::evaluate_columns_over nrows={} blowup={}", fname, nrows, blowup));
+            let g = ctx.root::<B>(k);
+            let off = offsets::<B>(r)[(ncols + k as usize) % 4];
+            let cols = gen_cols(r, ncols, nrows);
+            let ecols: Vec<Vec<E>> = cols.iter().map(|c| to_e::<B, E>(c)).collect();
+            let desc = format!("{} ColMatrix::evaluate_columns_over nrows={} cols={} off={:x} blowup={} vec=random", fname, nrows, ncols, off, blowup);
+            match catch(AssertUnwindSafe(|| {
+                let dom = StarkDomain::from_twiddles(fft::get_twiddles::<B>(nrows), blowup, B::fu(off));
+                ColMatrix::new(ecols).evaluate_columns_over(&dom).into_columns()
+            })) {
+                Err(m) => panicked(ctx, "evaluate_columns_over panics", &desc, &m),
+                Ok(res) => {
+                    if res.len() != ncols { ctx.evals += 1; ctx.fail("evaluate_columns_over: wrong number of columns", desc.clone(), ncols.to_string(), res.len().to_string()); continue; }
+                    for (c, col) in res.iter().enumerate() {
+                        if col.len() != nrows * blowup { ctx.evals += 1; ctx.fail("evaluate_columns_over: wrong column length", desc.clone(), (nrows * blowup).to_string(), col.len().to_string()); continue; }
+                        let all: Vec<usize> = (0..nrows * blowup).collect();
+                        let mut x = off; let mut last = 0usize;
+                        check_points::<B, E>(ctx, "evaluate_columns_over != direct evaluation", &format!("{} column={}", desc, c), col, &all, &mut |i| {
+                            while last < i { x = mulmod(x, g, p); last += 1; }
+                            horner::<B, E>(&cols[c], x)
+                        });
+                    }
+                }
+            }
+        }
+        // interpolate_columns inverts evaluation over the subgroup
+        let ncols = 1 + r.below(4) as usize;
+        let kk = nrows.trailing_zeros();
+        let g = ctx.root::<B>(kk);
+        let cols = gen_cols(r, ncols, nrows);
+        let evals: Vec<Vec<E>> = cols.iter().map(|c| to_e::<B, E>(&oracle_evals::<B, E>(c, g, kk, 1))).collect();
+        let desc = format!("{} ColMatrix::interpolate_columns nrows={} cols={} evals=oracle vec=random", fname, nrows, ncols);
+        match catch(AssertUnwindSafe(|| { let m = ColMatrix::new(evals); (m.interpolate_columns().into_columns(), m.interpolate_columns_into().into_columns()) })) {
+            Err(m) => panicked(ctx, "interpolate_columns panics", &desc, &m),
+            Ok((a, b)) => {
+                let all: Vec<usize> = (0..nrows).collect();
+                for (which, res) in [("interpolate_columns", a), ("interpolate_columns_into", b)] {
+                    if res.len() != ncols { ctx.evals += 1; ctx.fail("interpolate_columns: wrong number of columns", desc.clone(), ncols.to_string(), res.len().to_string()); continue; }
+                    for (c, col) in res.iter().enumerate() {
+                        check_points::<B, E>(ctx, "interpolate_columns(evals of p) != p", &format!("{} fn={} column={}", desc, which, c), col, &all, &mut |i| cols[c][i]);
+                    }
+                }
+            }
+        }
+    }
+    // RowMatrix::evaluate_polys_over::<N> / evaluate_polys::<N>
+    let mut combo = 0usize;
+    for nb in [8usize, 1, 2, 3, 4] {
+        let maxc = if nb == 8 && !ctx.quick { 255 } else { 40 };
+        for ncols in 1..=maxc {
+            let reps = if ncols <= 40 { 2 } else { 1 };
+            for rep in 0..reps {
+                combo += 1;
+                let mut nrows = rows_set[(combo * 3 + rep) % rows_set.len()];
+                let mut blowup = blow_set[(combo + combo / 5) % blow_set.len()];
+                if slow { nrows = nrows.min(if ncols <= 9 { 16 } else { 4 }); blowup = blowup.min(if ncols <= 9 { 8 } else { 4 }); if rep == 1 && ncols > 16 { continue; } }
+                if ncols > 40 { nrows = 4; blowup = 2; }
+                while ncols * nrows * nrows * blowup > (1 << 17) && nrows > 2 { nrows /= 2; }
+                let use_domain = rep == 0 || ncols % 4 != 0;
+                let off = if use_domain { offsets::<B>(r)[(ncols + nb) % 4] } else { B::GENERATOR.tu() };
+                let k = nrows.trailing_zeros() + blowup.trailing_zeros();
+                let fnname = if use_domain { "evaluate_polys_over" } else { "evaluate_polys" };
+                ctx.prog.step(|| format!("{} RowMatrix::{}::<{}> nrows={} cols={} blowup={}", fname, fnname, nb, nrows, ncols, blowup));
+                let g = ctx.root::<B>(k);
+                let cols = gen_cols(r, ncols, nrows);
+                let ecols: Vec<Vec<E>> = cols.iter().map(|c| to_e::<B, E>(c)).collect();
+                let desc = format!("{} RowMatrix::{}::<{}> nrows={} cols={} off={:x} blowup={} vec=random", fname, fnname, nb, nrows, ncols, off, blowup);
+                let m = match catch(AssertUnwindSafe(|| {
+                    let polys = ColMatrix::new(ecols);
+                    if use_domain {
+                        let dom = StarkDomain::from_twiddles(fft::get_twiddles::<B>(nrows), blowup, B::fu(off));
+                        rowmat_any::<B, E>(nb, &polys, Some(&dom), blowup)
+                    } else { rowmat_any::<B, E>(nb, &polys, None, blowup) }
+                })) { Ok(m) => m, Err(e) => { panicked(ctx, "RowMatrix evaluation panics", &desc, &e); continue; } };
+                ctx.evals += 1;
+                if m.num_rows() != nrows * blowup { ctx.fail("RowMatrix: num_rows != nrows * blowup", desc.clone(), (nrows * blowup).to_string(), m.num_rows().to_string()); continue; }
+                if m.num_cols() != ncols { ctx.fail("RowMatrix: num_cols != number of polynomials", desc.clone(), ncols.to_string(), m.num_cols().to_string()); continue; }
+                // every cell against Horner
+                let mut x = off % p;
+                let mut bad = false;
+                for row in 0..nrows * blowup {
+                    let got = match catch(AssertUnwindSafe(|| (0..ncols).map(|c| m.get(c, row)).collect::<Vec<E>>())) {
+                        Ok(v) => v, Err(e) => { ctx.fail("RowMatrix::get panics", format!("{} row={}", desc, row), "no panic".into(), format!("panic: {}", e)); break; }
+                    };
+                    for c in 0..ncols {
+                        let want = horner::<B, E>(&cols[c], x);
+                        if E::e_to_v(got[c]) != want {
+                            ctx.fail("RowMatrix cell != direct evaluation", format!("{} first_bad_index=(col {}, row {})", desc, c, row), E::v_show(want), E::v_show(E::e_to_v(got[c])));
+                            bad = true;
+                            break;
+                        }
+                    }
+                    if bad { break; }
+                    x = mulmod(x, g, p);
+                }
+            }
+        }
+    }
+}
+
 fn falsify(seed: u64, maxlog: u32, thorough: bool, prog: &Progress) -> (u64, u64) {
-    let mut ctx = Ctx { evals: 0, fails: 0, printed: 0, prog: prog.clone(), quick: !thorough, seed, roots_ok: BTreeSet::new() };
+    let mut ctx = Ctx { evals: 0, fails: 0, printed: 0, prog: prog.clone(), quick: !thorough, seed, roots_ok: BTreeSet::new(), selftest: std::env::var("C09_SELFTEST").is_ok() };
     let mut r = Rng::new(seed);
     let t0 = std::time::Instant::now();
     let timing = std::env::var("C09_STATS").is_ok();
@@ -786,6 +1092,14 @@ fn falsify(seed: u64, maxlog: u32, thorough: bool, prog: &Progress) -> (u64, u64
     per_type!(check_eval);
     per_type!(check_eval_off);
     per_type!(check_interp);
+    per_type!(check_degree);
+    section!("twiddles f64", check_twiddles::<f64::BaseElement>(&mut ctx, maxlog));
+    section!("twiddles f62", check_twiddles::<f62::BaseElement>(&mut ctx, maxlog));
+    section!("twiddles f128", check_twiddles::<f128::BaseElement>(&mut ctx, maxlog));
+    section!("permute_index", check_permute_index(&mut ctx, &mut r));
+    per_type!(check_permute);
+    per_type!(check_fft_raw);
+    per_type!(check_matrices);
     if timing { eprintln!("total {:.2}s", t0.elapsed().as_secs_f64()); }
     (ctx.evals, ctx.fails)
 }
